@@ -4,6 +4,7 @@ package main
 
 import (
 	"fmt"
+	"math/rand"
 	"strconv"
 	"strings"
 
@@ -38,7 +39,8 @@ func gen(r *vh.Rand) string {
 		n = r.Range(8, 12)
 	}
 	bs := make([]be, n)
-	style := r.Intn(4)
+	style := r.Intn(5)
+	hugeK := 1 << uint(r.Range(14, 24))
 	ratioN, ratioD := r.Range(0, 4), r.Range(1, 3)
 	for i := range bs {
 		var w, c int
@@ -62,6 +64,16 @@ func gen(r *vh.Rand) string {
 			if r.Chance(1, 4) {
 				c += r.Range(0, 2)
 			}
+		case 3: // huge connNum / weights with exact ties: products up to 2^61, still no int64 wrap
+			k := r.Range(1, 120)
+			w = k * r.Range(1, 3) * hugeK
+			c = k * r.Range(0, 3) * (hugeK >> uint(r.Intn(8)))
+			if r.Chance(1, 4) {
+				c += r.Range(-1, 1)
+			}
+			if r.Chance(1, 6) {
+				w, c = big-r.Intn(3), big-r.Intn(3)
+			}
 		default:
 			w = r.Range(1, 1200)
 			c = r.Range(0, 50)
@@ -77,7 +89,7 @@ func gen(r *vh.Rand) string {
 			c = -r.Range(1, 3) // more DecConnNum than IncConnNum
 		}
 		cur := w
-		if r.Chance(1, 3) {
+		if r.Chance(1, 3) && w < 100000 && w > -100000 {
 			cur = r.Range(-w-5, w+5)
 		}
 		bs[i] = be{w, cur, c, a}
@@ -104,6 +116,23 @@ func gen(r *vh.Rand) string {
 			steps = append(steps, fmt.Sprintf("a%d=%d", r.Intn(n), r.Intn(2)))
 		case x < 18:
 			steps = append(steps, fmt.Sprintf("w%d=%d", r.Intn(n), r.Range(0, 6)*pick2(r, 1, 100)))
+		case x < 19 && r.Chance(1, 2):
+			// Update: drop some, re-weight the rest (configured weights), maybe one new backend
+			var parts []string
+			kept := 0
+			for i := 0; i < n; i++ {
+				if r.Chance(1, 5) {
+					continue
+				}
+				parts = append(parts, fmt.Sprintf("%d:%d", i, []int{1, 1, 2, 3, 4, 6, 0, -1}[r.Intn(8)]))
+				kept++
+			}
+			if r.Chance(1, 2) || kept == 0 {
+				parts = append(parts, fmt.Sprintf("+:%d", r.Range(0, 4)))
+				kept++
+			}
+			steps = append(steps, "u"+strings.Join(parts, "/"))
+			n = kept
 		default:
 			steps = append(steps, "B")
 		}
@@ -122,6 +151,10 @@ func pick2(r *vh.Rand, a, b int) int {
 }
 
 func setConn(b *backend.BfeBackend, n int) {
+	if n > 1000 || n < -1000 {
+		b.VerifC04SetConnNum(n)
+		return
+	}
 	for b.ConnNum() < n {
 		b.IncConnNum()
 	}
@@ -130,7 +163,16 @@ func setConn(b *backend.BfeBackend, n int) {
 	}
 }
 
+const big = 1 << 31
+
+// scriptSeed seeds math/rand's global source (used by randomBalance) and a private replica of it, so that the
+// harness knows every value rand.Int() returns inside the implementation.
+const scriptSeed = 20240229
+
 func exec(op string) string {
+	rand.Seed(scriptSeed)
+	replica := rand.New(rand.NewSource(scriptSeed))
+	nextAddr := 0
 	f := strings.Split(op, " ")
 	if len(f) != 4 || f[0] != "wlc" {
 		return "bad-op"
@@ -154,8 +196,8 @@ func exec(op string) string {
 				}
 				v[i] = x
 			}
-			if v[2] > 100000 || v[2] < -100000 {
-				return "bad-op"
+			if v[2] > big || v[2] < -big || v[0] > big || v[0] < -big || v[1] > big*4 || v[1] < -big*4 {
+				return "bad-op" // products stay below 2^62: no int64 wrap (assumption of C04)
 			}
 			bs = append(bs, be{v[0], v[1], v[2], v[3]})
 		}
@@ -172,6 +214,7 @@ func exec(op string) string {
 	brr := bal_slb.NewBalanceRR("sub")
 	brr.Init(conf)
 	hs := brr.VerifC04Backends()
+	nextAddr = len(bs)
 	for i, b := range bs {
 		brr.VerifC04SetRaw(i, b.w, b.cur)
 		setConn(hs[i], b.conn)
@@ -200,10 +243,53 @@ func exec(op string) string {
 			for i, c := range cands {
 				cs[i] = strconv.Itoa(c)
 			}
-			out = append(out, fmt.Sprintf("%d/%s", idx, strings.Join(cs, ".")))
+			tok := fmt.Sprintf("%d/%s", idx, strings.Join(cs, "."))
+			if algor == bal_slb.WlcSimple && len(cands) >= 2 {
+				// randomBalance draws exactly one rand.Int() when there are >= 2 candidates
+				tok += fmt.Sprintf("/%d", replica.Int())
+			}
+			out = append(out, tok)
 			if s == "B" {
 				got.IncConnNum()
 			}
+			continue
+		}
+		if s[0] == 'u' {
+			// `u<i>:<c>/.../+:<c>`: brr.Update with the listed survivors (configured weight c) and at most one new backend
+			var conf cluster_table_conf.SubClusterBackend
+			seen := map[int]bool{}
+			plus := 0
+			for _, t := range strings.Split(s[1:], "/") {
+				p := strings.Split(t, ":")
+				if len(p) != 2 {
+					return "bad-op"
+				}
+				c, err := strconv.Atoi(p[1])
+				if err != nil || c > 1000 || c < -1000 {
+					return "bad-op"
+				}
+				var addr string
+				if p[0] == "+" {
+					plus++
+					if plus > 1 {
+						return "bad-op"
+					}
+					addr = fmt.Sprintf("10.0.0.%d", nextAddr)
+					nextAddr++
+				} else {
+					i, err := strconv.Atoi(p[0])
+					if err != nil || i < 0 || i >= len(hs) || seen[i] {
+						return "bad-op"
+					}
+					seen[i] = true
+					addr = hs[i].Addr
+				}
+				name, port, w := "u"+addr, 80, c
+				a := addr
+				conf = append(conf, &cluster_table_conf.BackendConf{Name: &name, Addr: &a, Port: &port, Weight: &w})
+			}
+			brr.Update(conf)
+			hs = brr.VerifC04Backends()
 			continue
 		}
 		if len(s) < 4 {
@@ -215,7 +301,7 @@ func exec(op string) string {
 		}
 		i, e1 := strconv.Atoi(s[1:eq])
 		n, e2 := strconv.Atoi(s[eq+1:])
-		if e1 != nil || e2 != nil || i < 0 || i >= len(bs) || n > 100000 || n < -100000 {
+		if e1 != nil || e2 != nil || i < 0 || i >= len(hs) || n > big || n < -big {
 			return "bad-op"
 		}
 		switch s[0] {
@@ -229,10 +315,16 @@ func exec(op string) string {
 			return "bad-op"
 		}
 	}
-	if len(out) == 0 {
-		return "-"
+	curs := brr.VerifC04Currents()
+	cs := make([]string, len(curs))
+	for i, c := range curs {
+		cs[i] = strconv.Itoa(c)
 	}
-	return strings.Join(out, ",")
+	res := "-"
+	if len(out) > 0 {
+		res = strings.Join(out, ",")
+	}
+	return res + ";cur=" + strings.Join(cs, ".")
 }
 
 func main() {
@@ -255,6 +347,30 @@ func main() {
 					}
 				}
 			}
+		}
+	}
+	pre0 := vh.Pre
+	vh.Pre = func(emit func(string), thorough bool) {
+		pre0(emit, thorough)
+		// WlcSimple: k tied minimisers (conn/weight = 1/100 in different shapes) among worse and ineligible ones;
+		// 48*k draws: every minimiser must be reachable and nothing else
+		for k := 2; k <= 7; k++ {
+			var bs []be
+			for i := 0; i < k; i++ {
+				m := i + 1
+				bs = append(bs, be{100 * m, 100 * m, m, 1})
+				if i%2 == 0 {
+					bs = append(bs, be{100 * m, 100 * m, m + 1, 1}) // worse
+				}
+				if i == 1 {
+					bs = append(bs, be{100, 100, 0, 0}, be{0, 0, 0, 1}) // better ratio but ineligible
+				}
+			}
+			st := make([]string, 48*k)
+			for i := range st {
+				st[i] = "b"
+			}
+			emit("wlc R " + fmtBs(bs) + " " + strings.Join(st, ","))
 		}
 	}
 	vh.Main(gen, exec)
